@@ -1,12 +1,19 @@
 package hist
 
 import (
+	"bytes"
+	"context"
 	"fmt"
 	"os"
 	"testing"
+	"testing/synctest"
+	"time"
+
+	"github.com/godaddy/asherah/go/appencryption"
 
 	"verif/harness/creators"
 	"verif/harness/ev"
+	"verif/harness/world"
 )
 
 func journal(s string) {
@@ -42,10 +49,84 @@ func runMany(t *testing.T, r *ev.Run, n int, p Params, salt int64) {
 
 func TestC01(t *testing.T) {
 	r := ev.Start("C01", "exploration")
-	r.Rule("seeded random histories (encrypt/store, decrypt/load through the same factory, another live factory or a brand-new one, session open/close, factory restart with a new cache policy, clock advances placed around precision / revoke-interval / lifetime boundaries, out-of-band revocation of latest and older IK/SK rows) over one monitored metastore+KMS inside a testing/synctest bubble; every decrypt is compared with the recorded payload and a final sweep decrypts every record through a fresh factory; two histories in five run over a DynamoDB plug-in on the semantic fake. Plus real-goroutine rounds in which 6 cold factories encrypt for the same new partition at once over each back end (their key inserts are held at a barrier so that they overlap) and a cold factory decrypts every record afterwards. A history is distinct+non-trivial when it produced more IK generations than partitions (a rotation happened) or contained a revocation.")
+	r.Rule("seeded random histories (encrypt/store, decrypt/load through the same factory, another live factory or a brand-new one, session open/close, factory restart with a new cache policy, clock advances placed around precision / revoke-interval / lifetime boundaries, out-of-band revocation of latest and older IK/SK rows) over one monitored metastore+KMS inside a testing/synctest bubble; every decrypt is compared with the recorded payload and a final sweep decrypts every record through a fresh factory; two histories in five run over a DynamoDB plug-in on the semantic fake. Plus real-goroutine rounds in which 6 cold factories encrypt for the same new partition at once over each back end (their key inserts are held at a barrier so that they overlap) and a cold factory decrypts every record afterwards. A migration scenario writes records without region-suffixed ids, then with the suffix of one and of another region, and reads all of them back in every later configuration. A history is distinct+non-trivial when it produced more IK generations than partitions (a rotation happened) or contained a revocation.")
 	r.Assume("virtual clock = testing/synctest bubble", "in-memory metastore and static KMS stand in for real ones", "all factories of one world share expire/revoke/precision timing; cache configuration is drawn per factory")
 	runMany(t, r, ev.Pick(300, 2500), Params{Oracles: OC01, Steps: ev.Pick(80, 400), MaxFacts: 3, BigPayloads: ev.Thorough(), ClockBias: 15, RevokeBias: 8, LatencyPct: 8, FaultPct: 25}, 1)
 	creators.Run(r, "C01", ev.Pick(60, 1200), journal)
+	suffixMigration(t, r)
 	r.Finish(t)
 }
 
+
+// suffixMigration: records written by processes that do not use region-suffixed key ids must still decrypt after
+// the deployment has switched the region suffix on (the suffixed partition accepts the legacy ids), in any region,
+// and records written with a suffix decrypt in every other region; for several service/product/partition shapes.
+func suffixMigration(t *testing.T, r *ev.Run) {
+	type shape struct{ svc, prod, part string }
+	for _, sh := range []shape{{"svc", "prod", "P"}, {"checkout", "payments", "tenant-7"}, {"a_b", "c", "x_y"}, {"s", "s", "s"}} {
+		name := fmt.Sprintf("suffix-migration/%s/%s/%s", sh.svc, sh.prod, sh.part)
+		journal("C01 " + name)
+		func() {
+			defer func() {
+				if pv := recover(); pv != nil {
+					r.Violation("sdk-panic", fmt.Sprintf("%s: %v", name, pv), nil)
+				}
+			}()
+			synctest.Test(t, func(t *testing.T) {
+				w := world.New("memguard")
+				defer w.Close()
+				time.Sleep(33 * time.Second)
+				ctx := context.Background()
+				cfg := world.Default(24*time.Hour, time.Hour, time.Minute)
+				type item struct {
+					d      *appencryption.DataRowRecord
+					pl     []byte
+					suffix string
+				}
+				var items []item
+				write := func(suffix string) {
+					w.Suffix = suffix
+					f := w.Factory(cfg, sh.svc, sh.prod)
+					s, _ := f.GetSession(sh.part)
+					pl := []byte(fmt.Sprintf("written with suffix %q", suffix))
+					d, err := s.Encrypt(ctx, pl)
+					if err != nil {
+						r.Violation("encrypt-failed-without-fault", fmt.Sprintf("%s: encrypt with suffix %q: %v", name, suffix, err), nil)
+					} else {
+						items = append(items, item{world.CopyDRR(d), pl, suffix})
+					}
+					s.Close()
+					f.Close()
+				}
+				read := func(suffix string) {
+					w.Suffix = suffix
+					f := w.Factory(cfg, sh.svc, sh.prod)
+					s, _ := f.GetSession(sh.part)
+					for _, it := range items {
+						if suffix == "" && it.suffix != "" {
+							continue // a process without the suffix option does not claim to read suffixed ids
+						}
+						out, err := s.Decrypt(ctx, *world.CopyDRR(it.d))
+						r.Eval(1)
+						if err != nil || !bytes.Equal(out, it.pl) {
+							r.Violation("c01-decrypt-error", fmt.Sprintf("%s: a record written with region suffix %q does not decrypt in a process with region suffix %q: %v", name, it.suffix, suffix, err), map[string]any{"engine": "hist/suffix-migration", "written": it.suffix, "read": suffix})
+						}
+					}
+					s.Close()
+					f.Close()
+				}
+				write("") // legacy deployment
+				read("")
+				time.Sleep(2 * time.Minute)
+				write("us-west-2") // the suffix is switched on
+				read("us-west-2")
+				read("eu-west-1") // another region of the global table
+				write("eu-west-1")
+				read("us-west-2")
+				read("eu-west-1")
+				w.Suffix = ""
+				r.Distinct(name)
+			})
+		}()
+	}
+}
